@@ -703,7 +703,7 @@ def gen_tie_world(rng: random.Random, n_steps: int) -> Dict[str, Any]:
 
 def gen_world(rng: random.Random, *, n_steps: int = 40, fleets: Optional[bool] = None, humans: bool = True,
               dt: Optional[int] = None, tight: bool = True, focus: Optional[str] = None, osm: bool = False,
-              pool: bool = False, variant: Optional[str] = None) -> Dict[str, Any]:
+              pool: bool = False, variant: Optional[str] = None, far: bool = False) -> Dict[str, Any]:
     """a small world built to make vehicles contend: few plugs and stalls, co-located entities, low charge"""
     if focus == "queue":
         return gen_queue_world(rng, n_steps, variant)
@@ -726,7 +726,8 @@ def gen_world(rng: random.Random, *, n_steps: int = 40, fleets: Optional[bool] =
     # cells 300..1500 m apart (one to three steps at 40 km/h and dt = 60)
     pts = []
     while len(pts) < ncell:
-        p = (rng.uniform(-900, 900), rng.uniform(-900, 900))
+        span = 5400 if far else 900        # far: journeys of many steps
+        p = (rng.uniform(-span, span), rng.uniform(-span, span))
         if all((p[0] - q[0]) ** 2 + (p[1] - q[1]) ** 2 > 250 ** 2 for q in pts):
             pts.append(p)
     cells = [world.at(x, y) for (x, y) in pts]
